@@ -118,5 +118,16 @@ pub fn text(sink: &mut Sink, seed: u64, thorough: bool) {
         let id = sink.id();
         sink.emit(&text_event(id, &format!("textsyn:{kind}"), &synthetic(v, kind, seed)));
     } }
+    // a symbol living in a REUSED buffer: whatever lies in the backing array beyond size x size (here: dark modules, or a larger symbol) is not
+    // part of the matrix and may not show up in the border
+    for (i, v) in [1usize, 3, 7, 20, 39].into_iter().enumerate() {
+        let mut q = if i % 2 == 0 { qr_of(40, seed) } else { let mut d = QRCode::default(177); for m in d.data.iter_mut() { *m = fast_qr::Module::data(true); } d };
+        let small = qr_of(v, seed + 5);
+        let n = small.size;
+        q.size = n; q.version = small.version; q.ecl = small.ecl; q.mask = small.mask; q.mode = small.mode;
+        for y in 0..n { for x in 0..n { q[y][x] = small[y][x]; } }
+        let id = sink.id();
+        sink.emit(&text_event(id, &format!("textreuse:{v}"), &q));
+    }
 }
 
